@@ -150,6 +150,14 @@ def r03_3(prog, out):
                 else:
                     out.violation(key, prog.loc(gid), "%s does not hand out the current value and advance the counter by AckId::next: %s" % (prog.short(gid), steppers[gid]))
                 continue
+            lc = loop_carried_counter(prog, bi, t.args[1], R.next_ack_id, nxt, bb)
+            if lc is True:
+                out.holds(key, bi.loc(bb), "ids come from a local copy of the lease counter that is advanced with AckId::next per delivery and stored back "
+                          "into the counter before the handler returns")
+                continue
+            if lc is not None:
+                out.violation(key, bi.loc(bb), "the delivery's ack id comes from a local counter, but %s" % lc)
+                continue
             if R.next_ack_id not in cells_of(prog, bi, o):
                 out.violation(key, bi.loc(bb), "the delivery's ack id does not come from the lease counter (%r)" % o)
                 continue
@@ -170,6 +178,74 @@ def r03_3(prog, out):
                 out.violation(key, bi.loc(w.bb), "the lease counter is not advanced with AckId::next of its current value")
             else:
                 out.violation(key, bi.loc(bb), "a path hands out a message without advancing the lease counter: the next delivery reuses the ack id")
+
+
+def loop_carried_counter(prog, bi, id_operand, counter_cell, nxt, new_bb):
+    """`let mut next = self.next_ack_id; loop { let id = next; next = id.next(); .. } self.next_ack_id = next;`
+    None: not this shape.  True: shape verified.  str: the shape, but broken in the way described."""
+    o = bi.trace(id_operand)
+    if o.kind != "local" or o.path or not isinstance(o.data, int):
+        return None
+    L = o.data
+    defs = bi.defs.get(L, [])
+    if len(defs) < 2:
+        return None
+
+    def is_L(op):
+        oo = bi.trace(op)
+        return oo.kind == "local" and oo.data == L and not oo.path
+
+    inits, steps, other = [], [], []
+    for (db, di) in defs:
+        if di >= 0:
+            st = bi.stmt(db, di)
+            src = st.rv.ops[0] if st.rv.k == "use" and st.rv.ops else None
+            if src is not None and src.place is not None:
+                so = prog.receiver_origin(bi, src.place)
+                if counter_cell in so.cells():
+                    inits.append((db, di))
+                    continue
+                if so.kind == "call" and not so.path:
+                    ct = bi.call_at(so.data)
+                    if ct.callee is not None and prog.qual(bi.body, ct.callee.target) == nxt and ct.args and is_L(ct.args[0]):
+                        steps.append((db, di))
+                        continue
+            other.append((db, di))
+        else:
+            ct = bi.body.blocks[db].term
+            if ct.k == "call" and ct.callee is not None and prog.qual(bi.body, ct.callee.target) == nxt and ct.args and is_L(ct.args[0]):
+                steps.append((db, di))
+            else:
+                other.append((db, di))
+    if not inits:
+        return None
+    if other:
+        return "the local counter is also assigned something else at %s" % bi.loc(other[0][0])
+    if not steps:
+        return "the local counter is never advanced with AckId::next: every delivery of a pull gets the same ack id"
+    # every hand-out is followed by a step before the next hand-out
+    step_bbs = {db for db, _ in steps}
+    loops = bi.cfg.in_loop(new_bb)
+    if loops and not any(bi.cfg.path(s, {new_bb}, avoid=step_bbs) is None for s in bi.cfg.succ[new_bb]) and \
+            bi.cfg.path(new_bb, {new_bb}, avoid=step_bbs) is not None:
+        pass
+    for s0 in bi.cfg.succ[new_bb]:
+        if not any(bi.cfg.dominates(sb, new_bb) and set(bi.cfg.in_loop(sb)) == set(loops) for sb in step_bbs):
+            if bi.cfg.path(s0, {new_bb}, avoid=step_bbs) is not None:
+                return "a path reaches the next hand-out without advancing the local counter"
+    # written back
+    wbs = []
+    for e in prog.effects(bi.body.id):
+        if e.kind == "write" and not e.chain and e.cells and e.cells[-1] == counter_cell and e.extra:
+            st = bi.stmt(*e.extra)
+            if st.rv.ops and is_L(st.rv.ops[0]):
+                wbs.append(e.bb)
+    if not wbs:
+        return "the advanced value is never stored back into the lease counter: the next pull hands out the same ack ids again"
+    from props.c12 import error_blocks
+    if bi.cfg.escapes(new_bb, set(wbs) | error_blocks(bi)) is not None:
+        return "a path returns without storing the advanced value back into the lease counter"
+    return True
 
 
 def stepper_ok(prog, gid, nxt):
